@@ -486,6 +486,29 @@ def p4(ck: Check) -> dict[str, str]:
             probs.append(f"field `{e.field}` has no recompute-on-demand accessor: the information is lost for good")
         ck.ob("P4", fm, e.stmt, not probs, "; ".join(probs) if probs else
               f"`{e.field}` dropped; recomputed on demand by {acc[e.field]}")
+    # candidates are dropped only where the seeds are known, and the candidate accessor then answers with the seeds: it
+    # refuses (`compute=False` -> KeyError) only when the seeds are unknown as well -- otherwise a query that was answered
+    # before the reclaim raises afterwards
+    cand_dropped = any(e.kind == "store" and e.field in ("attractor_candidates", "*") for e in fm.field_events())
+    if cand_dropped:
+        try:
+            ca = _sd(ck, "node_attractor_candidates")
+        except AnalysisError:
+            ca = None
+        if ca is not None:
+            node_pc = [p_ for p_ in ca.f.params() if p_ != "self"][0]
+            seeds_none = logic.B(f"none:FIELD<self|{node_pc}|attractor_seeds>")
+            for r_ in own_walk(ca.f.node):
+                if isinstance(r_, ast.Raise) and r_.exc is not None and "KeyError" in text(r_.exc):
+                    pcr = ca.pc(ca.cfgn(r_))
+                    try:
+                        okr = seeds_none[1] in logic.atoms(pcr) and logic.implies(pcr, seeds_none)
+                    except logic.TooBig:
+                        okr = False
+                    ck.ob("P4", ca, r_, okr, "the candidate query refuses only when the seeds are unknown too" if okr else
+                          f"the candidate query raises under `{logic.show(pcr)[:80]}`, also when the seeds are known: after "
+                          f"reclaim_node_data (which drops the candidates of exactly those nodes) a query that was answered before "
+                          f"raises KeyError", key="candidate query after reclaim")
     for n in own_walk(fm.f.node):
         if isinstance(n, ast.Call) and isinstance(n.func, ast.Attribute):
             d = dotted(n.func) or ""
